@@ -23,7 +23,7 @@ def run(ck):
         lo, hi = 256 * i // 8, 256 * (i + 1) // 8
         jobs.append(dict(exe=plain if not thorough else asan, args=["--mode", "b64_3", "--from", lo, "--to", hi], label="b64_3_%d" % i, timeout=3000))
     jobs.append(dict(exe=asan, args=["--mode", "sizes"], label="sizes"))
-    n = int((40000 if thorough else 1500) * ck.scale)
+    n = int((200000 if thorough else 1500) * ck.scale)
     for i in range(8):
         jobs.append(dict(exe=asan, args=["--mode", "random", "--cases", n, "--seed", sa.subseed(ck, i)], label="random%d" % i, timeout=3000))
     for i in range(2):
